@@ -16,9 +16,11 @@ RULE = ('A victim instance and an active peer (own service, browser, periodic tr
         'AsyncZeroconf.async_add_service_listener, cancel some, start service-info lookups with timeouts 200 ms-10 s, receive QM/QU/'
         'legacy/TC queries that fill the aggregation and protection queues) and async_close() is requested at an absolute time or on '
         'a grid {0,1,174,176,349,351,574,576,799,801,1100} ms after a chosen operation (during probing, between announcements, with '
-        'answers queued, TC train held, browser start-up, lookups pending). Afterwards: injected traffic, peer announcements, a second '
+        'answers queued, TC train held, browser start-up, lookups pending), or aimed (to within -1..+5 loop iterations of 1 us, 20 us or '
+        '1 ms virtual cost) at the instant the periodic 10 s purge timer comes due, directly or 250 ms earlier (goodbyes first). '
+        'The victim also carries a plain RecordUpdateListener that is never removed. Afterwards: injected traffic, peer announcements, a second '
         'async_close(), and 3 h of virtual time. Oracle: nothing is transmitted by the victim and no listener callback fires after '
-        'the first close returned, the loop exception handler stays empty, every in-flight coroutine finishes with a result or '
+        '(ServiceListener or RecordUpdateListener) after the first close returned, the loop exception handler stays empty, every in-flight coroutine finishes with a result or '
         'NotRunningException/NonUniqueNameException, services in the registry at close time got three complete goodbyes before the '
         'sockets closed, the second close transmits nothing. Non-trivial = close requested while a victim timer/task with a send in '
         'it was pending (registration in progress, queued answers, TC hold, browser start-up or a pending lookup).')
@@ -62,6 +64,14 @@ def scenario(draw) -> Dict[str, Any]:
                         'qu': False, 'port': 5353, 'what': draw(st.sampled_from(['ptr', 'ptr', 'srv']))})
         n = len(ops)
         close = {'rel': n - 1, 'delta': draw(st.sampled_from([0, 1, 19, 21, 100, 119, 399, 450, 499, 501, 1000, 1199]))}
+    elif draw(st.integers(0, 3)) == 0:
+        # close aimed at the instant the engine's periodic purge timer comes due (one event-loop iteration wide), either directly
+        # or 250 ms earlier when there are services to say goodbye to; 'tick_us' is the virtual cost of one busy loop iteration
+        ops = [{'t': 0, 'op': 'browser', 'how': 'direct', 'type': 0}] + ops
+        n = len(ops)
+        likely = 250 if any(o['op'] == 'register' for o in ops) else 0
+        close = {'cleanup': draw(st.integers(1, 3)), 'pre_ms': draw(st.sampled_from([likely, likely, likely, 250 - likely])),
+                 'off_ticks': draw(st.integers(-1, 5)), 'tick_us': draw(st.sampled_from([1, 20, 1000]))}
     elif draw(st.booleans()):
         close = {'rel': draw(st.integers(0, n - 1)), 'delta': draw(st.sampled_from(GRID))}
     else:
@@ -85,6 +95,22 @@ VICTIM_SVCS = [
     {'type': TYPES[0], 'name': 'vic2.' + TYPES[0], 'port': 82, 'server': 'victim-b.local.', 'addrs': ['10.0.0.1', 'fe80::1'], 'props': ''},
 ]
 PEER_SVC = {'type': TYPES[0], 'name': 'peer0.' + TYPES[0], 'port': 90, 'server': 'peer.local.', 'addrs': ['10.0.0.2'], 'props': ''}
+
+
+class PlainListener:
+    """RecordUpdateListener that logs every call (global sequence number, virtual time, were the sockets already closed)."""
+
+    def __init__(self, world: sim.World, host: sim.Host) -> None:
+        self.world, self.host = world, host
+        self.calls: List[Dict[str, Any]] = []
+
+    def async_update_records(self, zc: Any, now: float, records: List[Any]) -> None:
+        self.world.gseq += 1
+        self.calls.append({'g': self.world.gseq, 't': self.world.clock.t, 'n': len(records),
+                           'socks_closed': bool(self.host.endpoints) and all(ep.closed for ep in self.host.endpoints)})
+
+    def async_update_records_complete(self) -> None:
+        pass
 
 
 class Exec:
@@ -111,10 +137,14 @@ class Exec:
         # the peer: registered service and a browser (keeps the link busy before and after the close)
         self.tasks.append(('peer-register', asyncio.ensure_future(self._peer_register(p))))
         AsyncServiceBrowser(p.zc, TYPES, listener=sim.RecListener(w, 'peer'))
+        self.plain = PlainListener(w, x)
+        x.zc.async_add_listener(self.plain, None)      # an application's own RecordUpdateListener, never removed
         t_base = w.now_ms
         ops = sorted(enumerate(self.case['ops']), key=lambda io: (io[1]['t'], io[0]))
         close = self.case['close']
-        if 'at' in close:
+        if 'cleanup' in close:
+            t_close = float('inf')      # decided once the operations have run, see below
+        elif 'at' in close:
             t_close = close['at']
         else:
             ref = self.case['ops'][close['rel'] % len(self.case['ops'])]
@@ -125,7 +155,16 @@ class Exec:
         closed = False
         for t, i, op in timeline:
             target = t_base + t
-            if target > w.now_ms:
+            if op == 'CLOSE' and 'cleanup' in close:
+                # steering only: read when the purge timer is due and aim the close (or its last goodbye) into that iteration
+                loop = asyncio.get_running_loop()
+                for _ in range(close['cleanup'] - 1):
+                    await asyncio.sleep(max(0.0, x.zc.engine._cleanup_timer.when() - loop.time()) + 0.001)
+                when = x.zc.engine._cleanup_timer.when()
+                aim = when - close['pre_ms'] / 1000.0 - (close['off_ticks'] + 0.5) * close['tick_us'] * 1e-6
+                if aim > loop.time():
+                    await asyncio.sleep(aim - loop.time())
+            elif target > w.now_ms:
                 await asyncio.sleep((target - w.now_ms) / 1000.0)
             if op == 'CLOSE':
                 self.pending_at_close = [name for name, f in self.tasks if not f.done() and not name.startswith('peer')]
@@ -223,7 +262,8 @@ ALLOWED_EXC = ('NotRunningException', 'NonUniqueNameException')
 
 def check(case: Dict[str, Any]) -> Dict[str, Any]:
     ex = Exec(case)
-    with sim.World(jitter_seed=case['jitter']) as w:
+    tick = case['close']['tick_us'] * 1e-6 if 'tick_us' in case['close'] else None
+    with sim.World(jitter_seed=case['jitter'], tick=tick) as w:
         try:
             w.run(ex.main(w))
         except sim.SimBudgetExceeded as e:
@@ -266,6 +306,10 @@ def check(case: Dict[str, Any]) -> Dict[str, Any]:
         if cb:
             raise Violation('browser callback fired after async_close had returned',
                             dict(det, callback=(cb[0]['kind'], cb[0]['name'], rel(cb[0]['t'] * 1000))), tag='callback-after-close')
+    cb = [c for c in ex.plain.calls if c['g'] > ex.g_close_done]
+    if cb:
+        raise Violation('RecordUpdateListener.async_update_records called after async_close had returned',
+                        dict(det, t=rel(cb[0]['t'] * 1000), n_records=cb[0]['n'], calls=len(cb)), tag='listener-after-close')
     if errors:
         raise Violation('exception reached the event loop: ' + str(errors[0].get('exception')),
                         dict(det, errors=[(rel(e['t'] * 1000), e['message'], e['exception']) for e in errors[:3]]),
@@ -308,6 +352,11 @@ def check(case: Dict[str, Any]) -> Dict[str, Any]:
         classes.append('close-with-browser-timer')
     if ex.in_registry_at_close:
         classes.append('close-with-registered-services')
+    if any(ex.g_close_call < c['g'] < ex.g_close_done and c['socks_closed'] for c in ex.plain.calls):
+        classes.append('purge-timer-fired-between-socket-shutdown-and-timer-cancel')
+        busy = True
+    if 'cleanup' in case['close']:
+        classes.append('close-aimed-at-purge-timer')
     if any(o[1] == 'raised' for o in outcomes):
         classes.append('task-raised-documented-exception')
     return {'nontrivial': busy, 'classes': classes, 'max': {'ops': len(case['ops'])},
